@@ -88,7 +88,10 @@ def quadratic_spline(
 
     unnorm_heights_exp = F.softplus(unnormalized_heights) + 1e-3
 
-    if unnorm_heights_exp.shape[-1] == num_bins - 1:
+    if unnorm_heights_exp.shape[-1] == num_bins - 1 and num_bins == 1:
+        # A single bin has no interior knots: both boundary heights are 1 and the spline is the identity.
+        unnorm_heights_exp = widths.new_ones(*widths.shape[:-1], 2)
+    elif unnorm_heights_exp.shape[-1] == num_bins - 1:
         # Set boundary heights s.t. after normalization they are exactly 1.
         first_widths = 0.5 * widths[..., 0]
         last_widths = 0.5 * widths[..., -1]
